@@ -376,7 +376,10 @@ pname = z3.Function("path_name", z3.IntSort(), z3.IntSort())
 
 def path_axioms():
     p = z3.Int("p!rp")
-    return [z3.ForAll([p], rpath(rpath(p)) == rpath(p), patterns=[rpath(rpath(p))])]
+    from .lib_models import is_str
+    return [z3.ForAll([p], rpath(rpath(p)) == rpath(p), patterns=[rpath(rpath(p))]),
+            # a resolved path is a path object, never a bytes value (it takes the "path" branch of isinstance tests)
+            z3.ForAll([p], is_str(rpath(p)), patterns=[rpath(p)])]
 
 
 def readfile_method(ex, st, rf, name, args, var_node):
